@@ -27,12 +27,12 @@ from __future__ import annotations
 import ast
 
 from ..cfg import cfg_of
-from ..flow import describe_path
+from ..flow import describe_path, find_path as flow_find_path, no_exc as _no_exc
 from ..linexpr import Env, Lin, NONE, Seq, fresh, local_edges, loop_heads, paths_from, run_steps, segments
 from ..model import AnchorError, Func, UnknownIdiom, dotted, short, unparse
 from .c07_helpers import (ASGI, BUDGET, WSGI, Inliner, Verdicts, asgi_constructor, asgi_drained, asgi_initial_position, asgi_keys, asgi_loops,
                           asgi_positions, lazy_wrapping, require_attrs, run_steps_inl)
-from .common import ancestors, enclosing_map, walk_self
+from .common import ancestors, enclosing_map, implied, walk_self
 
 # `io` documentation: what a raw-stream method returns for a size argument n
 CONTRACT = {
@@ -110,8 +110,24 @@ class Wsgi:
             return True
         if self.raw_method(call.func) in CONTRACT:
             return True
+        if self.sentinel_iter(call) is not None:
+            return True             # iter(self.readline, b''): every item is the result of one read
         t = self._callee(f, call)
         return isinstance(t, Func) and t.qual in self.reading_methods()
+
+    def reading_ref(self, e):
+        """The reading method of the class that `self.<name>` names (a bound-method reference), else None."""
+        if isinstance(e, ast.Attribute) and dotted(e.value) == 'self':
+            t = self.cls.methods.get(e.attr)
+            if t is not None and not t.is_property() and t.qual in self.reading_methods():
+                return t
+        return None
+
+    def sentinel_iter(self, call):
+        """For `iter(self.<reading method>, <sentinel>)` the method, else None."""
+        if isinstance(call, ast.Call) and isinstance(call.func, ast.Name) and call.func.id == 'iter' and len(call.args) == 2 and not call.keywords:
+            return self.reading_ref(call.args[0])
+        return None
 
     def budget_props(self):
         """Names of the properties of the class that are computed from the budget (eof, ...)."""
@@ -411,6 +427,7 @@ def r3_accounting(run):
     seen = set()
     _consumption_decisions(run, w, v, seen)
     _exhaust_exits(run, w, v, seen)
+    _no_loss(run, w, v)
     if pending:
         raise UnknownIdiom('; '.join(pending[:3]))
     v.flush()
@@ -569,10 +586,11 @@ def _consumption_decisions(run, w, v, seen):
         c = Consumption(w, f)
         for lp in c.loops:
             region = c.region(lp)
-            if not any(c.has_consuming(x) for x in region):
+            over_reads = not isinstance(lp, ast.While) and c.has_consuming(lp.iter)     # for line in iter(self.readline, b'')
+            if not any(c.has_consuming(x) for x in region) and not over_reads:
                 continue
             run.use(f)
-            defs = c.defs(region)
+            defs = c.defs([lp] if over_reads else region)
             rd = c.closure(defs, c.has_consuming)
             bd = c.closure(defs, w.mentions_budget)
             alldefs = c.defs(f.node.body)
@@ -791,6 +809,232 @@ def _exhaust_exits(run, w, v, seen):
                    'next read hands out bytes that should have been discarded')
     if n == 0:
         v.unknown('%s: no way out of the method was recognised as a decision about consumption' % f.qual)
+
+
+# ---------------------------------------------------------------------------
+# R3 (continued): no loss -- whatever a read obtained is handed to the caller
+# ---------------------------------------------------------------------------
+
+# methods that promise to throw body data away (one line of reason each)
+DISCARDERS = {
+    'exhaust': 'documented to consume and discard whatever is left of the body',
+}
+_HANDING = {'append', 'extend', 'insert', 'add', 'write', 'appendleft', 'join'}
+
+
+def _discarders(w):
+    """The tabled discarding methods plus the value-less helpers only they call."""
+    out = {w.cls.methods[n].qual for n in DISCARDERS if n in w.cls.methods}
+
+    def valueless(t):
+        return not any((isinstance(x, ast.Return) and x.value is not None) or isinstance(x, (ast.Yield, ast.YieldFrom)) for x in walk_self(t.node))
+
+    callers = {}
+    for f in w.methods:
+        for c in walk_self(f.node):
+            if isinstance(c, ast.Call):
+                t = w._callee(f, c)
+                if isinstance(t, Func) and t.cls is not None and t.qual in {m.qual for m in w.methods}:
+                    callers.setdefault(t.qual, set()).add(f.qual)
+    changed = True
+    while changed:
+        changed = False
+        for f in w.methods:
+            if f.qual not in out and valueless(f) and callers.get(f.qual) and callers[f.qual] <= out:
+                out.add(f.qual)
+                changed = True
+    return out
+
+
+def _empty_on_edge(test, truth, name, call):
+    """Does `test` coming out `truth` imply that the read result (local `name` / the call expression itself) is empty?"""
+    def is_val(e):
+        return (name is not None and isinstance(e, ast.Name) and e.id == name) or (call is not None and e is call) \
+            or (name is not None and isinstance(e, ast.NamedExpr) and isinstance(e.target, ast.Name) and e.target.id == name)
+
+    def is_len(e):
+        return isinstance(e, ast.Call) and isinstance(e.func, ast.Name) and e.func.id == 'len' and len(e.args) == 1 and not e.keywords and is_val(e.args[0])
+
+    if implied(test, truth, lambda e: is_val(e) or is_len(e)) is False:
+        return True
+
+    def cmp(e, ops):
+        if not (isinstance(e, ast.Compare) and len(e.ops) == 1 and isinstance(e.ops[0], ops)):
+            return False
+        a, b = e.left, e.comparators[0]
+        if _is_empty_const(a) and is_val(b) or _is_empty_const(b) and is_val(a):
+            return isinstance(e.ops[0], (ast.Eq, ast.NotEq))
+        zero = lambda z: isinstance(z, ast.Constant) and z.value == 0 and not isinstance(z.value, bool)
+        return (is_len(a) and zero(b)) or (isinstance(e.ops[0], (ast.Eq, ast.NotEq)) and is_len(b) and zero(a))
+
+    if implied(test, truth, lambda e: cmp(e, (ast.Eq,))) is True:
+        return True                 # x == b'' / len(x) == 0
+    if implied(test, truth, lambda e: cmp(e, (ast.NotEq, ast.Gt))) is False:
+        return True                 # not (x != b'') / not (len(x) > 0)
+    return False
+
+
+def _skipped_or_empty(expr, truth, site, name):
+    """Given that the branch condition `expr` comes out `truth`: was the read at `site` (a sub-expression) either not
+    evaluated at all (short circuit) or is its result empty?"""
+    if not any(y is site for y in walk_self(expr)) and expr is not site:
+        return False
+    if expr is site:
+        return not truth
+    if isinstance(expr, ast.UnaryOp) and isinstance(expr.op, ast.Not):
+        return _skipped_or_empty(expr.operand, not truth, site, name)
+    if isinstance(expr, ast.BoolOp):
+        j = next(i for i, x in enumerate(expr.values) if x is site or any(y is site for y in walk_self(x)))
+        stop = not isinstance(expr.op, ast.And)          # the operand value that ends the evaluation early
+        if truth == stop:
+            # some operand i had the stopping value: i < j -> site skipped; i == j -> judged on that operand;
+            # i > j -> operand j had the other value
+            later = len(expr.values) > j + 1
+            return _skipped_or_empty(expr.values[j], stop, site, name) and (not later or _skipped_or_empty(expr.values[j], not stop, site, name))
+        return _skipped_or_empty(expr.values[j], not stop, site, name)
+    return _empty_on_edge(expr, truth, name, None)
+
+
+def _no_loss(run, w, v):
+    """No loss: inside the wrapper, the result of every read (a gated raw read, or a call of / an iteration over one of the
+    class's own reading methods) is handed on -- returned, yielded, stored into what is returned -- on every normal path on
+    which it is not provably empty.  The bytes have left wsgi.input and the budget has been charged for them: a result that
+    is overwritten, or still unused when the method returns, is a hole in the body the application sees.  (`for line in
+    iter(self.readline, b'')` obtains the next line BEFORE the loop body decides anything: a `break` / `continue` ahead of
+    the first use drops it.)  Methods tabled in DISCARDERS promise to discard and are exempt.
+    Witness: body b'a\\nb\\nc\\n', readlines(1) then read(): the application never sees b'b\\n'."""
+    p = run.project
+    exempt = _discarders(w)
+    what = 'whatever a read obtained is handed on (returned / yielded / collected) on every normal path on which it is not provably empty'
+    rw = ('body b"a\\nb\\nc\\n" with Content-Length 6: after this operation a following read() continues one read further on -- bytes taken '
+          'from wsgi.input and charged to the budget are never handed to the application, eof is reported with part of the body undelivered')
+    for f in sorted(w.methods, key=lambda f: f.qual):
+        parent = enclosing_map(f.node)
+
+        def stmt_of(x):
+            for a in [x] + list(ancestors(x, parent)):
+                if isinstance(a, ast.stmt):
+                    return a
+            return None
+
+        def within(x, kinds):
+            """the nearest ancestor of x (inside its statement) of one of `kinds`"""
+            for a in ancestors(x, parent):
+                if isinstance(a, kinds):
+                    return a
+                if isinstance(a, ast.stmt):
+                    return None
+            return None
+
+        # ---- bound-method references: only as the callable of a sentinel iterator (or handed back whole)
+        sites = []          # (kind, construct node, tracked local | None, call | None, defining ast node)
+        for x in walk_self(f.node):
+            if isinstance(x, ast.Attribute) and isinstance(x.ctx, ast.Load) and w.reading_ref(x) is not None:
+                up = parent.get(id(x))
+                if isinstance(up, ast.Call) and up.func is x:
+                    continue            # an ordinary call: handled below
+                if f.qual in exempt:
+                    continue
+                st = stmt_of(x)
+                if isinstance(st, ast.Return):
+                    continue
+                if isinstance(up, ast.Call) and w.sentinel_iter(up) is not None:
+                    up2 = parent.get(id(up))
+                    if isinstance(up2, (ast.For, ast.AsyncFor)) and up2.iter is up and isinstance(up2.target, ast.Name):
+                        sites.append(('loop', up2, up2.target.id, None, up2))
+                        continue
+                v.unknown('%s: the reading method `%s` is passed around as a value (`%s`)' % (f.qual, unparse(x), short(st, 50)))
+        # ---- calls
+        for c in walk_self(f.node):
+            if not (isinstance(c, ast.Call) and w.consuming(f, c)) or w.sentinel_iter(c) is not None:
+                continue
+            if f.qual in exempt:
+                v.note(f, 'no loss', what, True)
+                continue
+            t = w._callee(f, c)
+            if isinstance(t, Func) and t.qual in exempt:
+                continue                # a discarding procedure: there is no result
+            st = stmt_of(c)
+            inner = c
+            up = parent.get(id(c))
+            if isinstance(up, ast.Await):
+                inner, up = up, parent.get(id(up))
+            if isinstance(st, ast.Return) or within(c, (ast.Yield, ast.YieldFrom)) is not None:
+                v.note(f, 'no loss', what, True)
+                continue
+            if isinstance(st, ast.Expr) and st.value is inner:
+                v.note(f, 'no loss', what, False, st, 'the result of `%s` is thrown away' % short(c, 50), None, rw)
+                continue
+            if isinstance(st, (ast.Assign, ast.AnnAssign)) and st.value is inner:
+                tg = st.targets if isinstance(st, ast.Assign) else [st.target]
+                if len(tg) == 1 and isinstance(tg[0], ast.Name):
+                    sites.append(('assign', st, tg[0].id, None, st))
+                    continue
+            if isinstance(up, ast.NamedExpr) and up.value is inner and isinstance(up.target, ast.Name):
+                sites.append(('walrus', up, up.target.id, None, up))
+                continue
+            if isinstance(up, ast.Call) and isinstance(up.func, ast.Attribute) and up.func.attr in _HANDING and isinstance(up.func.value, ast.Name) \
+                    and any(a is inner for a in up.args):
+                v.note(f, 'no loss', what, True)        # lines.append(self.readline())
+                continue
+            if isinstance(st, ast.AugAssign) and isinstance(st.target, ast.Name) and isinstance(st.op, ast.Add) and st.value is inner:
+                v.note(f, 'no loss', what, True)        # data += self.read(n)
+                continue
+            if isinstance(st, (ast.If, ast.While)) and any(y is c for y in walk_self(st.test)):
+                sites.append(('test', c, None, c, st.test))
+                continue
+            v.unknown('%s: cannot tell what becomes of the result of `%s` in `%s`' % (f.qual, short(c, 40), short(st, 50)))
+        if not sites:
+            continue
+        cfg = cfg_of(f, p)
+        run.use_cfg(cfg)
+        for kind, cons, name, call, anchor in sites:
+            if kind == 'loop':
+                dnodes = [i for i in cfg.nodes_for(anchor) if cfg.node(i).kind == 'iter']
+            elif kind == 'test':
+                dnodes = [i for i in cfg.nodes_for(anchor) if cfg.node(i).kind == 'test']
+            else:
+                dnodes = [n.id for n in cfg.live_nodes() if n.kind in ('stmt', 'test') and any(y is anchor for y in n.walk())]
+            if not dnodes:
+                continue                # dead code
+            # nodes that hand the value on: any load outside a branch condition other than taking its length / truth
+            uses, redefs = set(), set()
+            if name is not None:
+                for n in cfg.live_nodes():
+                    loads = [y for y in n.walk() if isinstance(y, ast.Name) and y.id == name]
+                    if any(isinstance(y.ctx, (ast.Store, ast.Del)) for y in loads):
+                        redefs.add(n.id)
+                    if n.kind == 'test':
+                        continue
+                    for y in loads:
+                        if not isinstance(y.ctx, ast.Load):
+                            continue
+                        up = parent.get(id(y))
+                        if isinstance(up, ast.Call) and isinstance(up.func, ast.Name) and up.func.id in ('len', 'bool') and up.args == [y]:
+                            continue
+                        uses.add(n.id)
+            dead_edges = set()
+            for n in cfg.live_nodes():
+                if n.kind == 'test':
+                    for (y, l) in cfg.succ[n.id]:
+                        if l in ('T', 'F') and _empty_on_edge(n.ast, l == 'T', name, call):
+                            dead_edges.add((n.id, y, l))
+            for d in dnodes:
+                if kind == 'walrus' and cfg.node(d).kind == 'test':
+                    dead_edges |= {(d, y, l) for (y, l) in cfg.succ[d] if l in ('T', 'F') and _skipped_or_empty(cfg.node(d).ast, l == 'T', cons, name)}
+                starts = [y for (y, l) in cfg.succ[d] if l != 'exc' and (d, y, l) not in dead_edges
+                          and not (kind == 'loop' and l != 'next')]
+                own_use = d in uses and kind != 'loop'          # (x = read(); the defining node itself is no use)
+                path = flow_find_path(cfg, starts, {cfg.exit} | redefs | {d}, avoid_nodes=uses - ({d} if not own_use else set()),
+                                      avoid_edges=dead_edges, edge_filter=_no_exc)
+                if path is None:
+                    v.note(f, 'no loss', what, True)
+                    continue
+                head = ('for %s in %s' % (unparse(cons.target), unparse(cons.iter))) if kind == 'loop' else cons
+                v.note(f, 'no loss', what, False, head,
+                       'the result of `%s` can be dropped: a normal path leaves it unused (and not known to be empty) before the method returns '
+                       'or it is overwritten' % (head if isinstance(head, str) else short(cons, 60)),
+                       describe_path(cfg, [d] + path), rw)
 
 
 # ---------------------------------------------------------------------------
